@@ -26,6 +26,9 @@ THEOREMS = [
     'Nb.C10.ecat_guess_correct', 'Nb.C10.ecat_guess_correct_generated',
     'Nb.C10.check_fix_idempotent', 'Nb.C10.check_fix_noop', 'Nb.C10.check_fix_reports_eq_check_only',
     'Nb.C10.second_run_only_unfixable', 'Nb.C10.second_run_offset_bitpix', 'Nb.C10.fix_preserves_defined',
+    'Nb.C10.checkFixBytes_parse', 'Nb.C10.checkFixBytes_idempotent', 'Nb.C10.checkFixBytes_noop',
+    'Nb.C10.checkFixBytes_untouched', 'Nb.C10.checkFixBytes_generated',
+    'Nb.C10.from_header_preserves', 'Nb.C10.from_header_fields_castable',
     'Nb.C10.from_header_preserves_zooms', 'Nb.C10.from_header_pixdim_beyond_ndim_counterexample',
     'Nb.C10.layouts_wf', 'Nb.C10.layouts_declared_sizes', 'Nb.C10.layouts_names_distinct',
     'Nb.C10.dtcodes_consistent', 'Nb.C10.classes_consistent',
@@ -40,8 +43,9 @@ ASSUMPTIONS = [
     'NumPy structured-dtype semantics (ndarray(buffer=...), tobytes, byteswap, field get/set) are represented by '
     'parse/serialize/swapFields; the oracle re-decodes every field with int.from_bytes independently',
     'the check theorems are about the record CF of checked fields (runFix/fixOf/reportOf); the glue readCF/writeCF '
-    'between CF and the parsed record (checkFixBytes, which is what the driver runs) is not proved, it is compared '
-    'byte for byte with BatteryRunner.check_fix on every chk case',
+    'between CF and the header bytes is proved (checkFixBytes_parse/_idempotent/_noop/_untouched, generic over '
+    'compat class/layout pairs, decided for every generated class) and checkFixBytes is additionally compared byte '
+    'for byte with BatteryRunner.check_fix on every chk case',
     'floats are raw bit patterns; the checks use only sign/zero/NaN classes, abs (clears the sign bit, also of '
     'NaNs), the constant 1.0 and the exact dyadic value of vox_offset (FloatFmt.decode, validated against NumPy '
     'on the fdec stream); IEEE arithmetic itself is NumPy',
@@ -49,9 +53,12 @@ ASSUMPTIONS = [
     'message; the model marks that input (raises) and the theorems about check_fix exclude it',
     'MGHHeader(binaryblock) replaces delta/Mdc/Pxyz_c by defaults when goodRASFlag == 0 (documented, tested '
     'upstream); bytes_roundtrip is claimed for MGH only for goodRASFlag != 0, the replacement is modelled',
-    'from_header: only its dim/pixdim part is modelled (fromHeaderPix, stream fhpix) and proved '
-    '(from_header_preserves_zooms); dtype, shape and the other same-named fields are checked by the oracle on '
-    'the real code; from_header(check=True) raising '
+    'from_header: modelled on ALL fields (fromHeaderVals: copy loop over the analyze map, then the setters) with '
+    "NumPy's assignment cast between field types and the values the setters compute as parameters; "
+    'from_header_preserves gives the provenance of every target field (copied / target default / overwritten = '
+    'datatype, bitpix, dim, pixdim, magic for NIfTI targets); the fromhdr stream compares the provenance of EVERY '
+    'field plus datatype/bitpix/dim/pixdim tags/magic with the real conversion for all cross-class pairs; NumPy '
+    'casting itself is trusted (the oracle uses astype); from_header(check=True) raising '
     'HeaderDataError for a level>=40 problem carried over from the source (e.g. single-file vox_offset 352 into '
     'NIfTI-2) is allowed; OPEN finding fromhdr:pixdim-beyond-ndim-reset (cross-class conversion of a header with '
     'ndim<3 resets pixdim[ndim+1:] and hence its qform) is reported as KNOWN-FINDING',
@@ -290,7 +297,8 @@ def regen():
                      f'sizeofHdr := {int(getattr(k, "sizeof_hdr", 0))},\n  checks := [{", ".join(checks)}], dtTable := {table}, '
                      f'pixFmt := {pixfmt}, voxKind := {voxkind},\n  singleMagic := {sm}, pairMagic := {pm}, '
                      f'singleVoxOffset := {svo}, singleVoxPattern := {voxpat},\n  xformCodes := {xf}, guess := {guess}, '
-                     f'swappable := {"false" if name == "mgh" else "true"} }}\n')
+                     f'swappable := {"false" if name == "mgh" else "true"}, '
+                     f'isSingle := {"true" if getattr(k, "is_single", False) else "false"} }}\n')
     ec = m['volumeutils'].endian_codes
     rows = []
     for k in ec.keys():
@@ -431,7 +439,9 @@ def mk_simple(op, args, stream):
 
 def mk_fromhdr(src, dst, e, bs, check):
     data = {'op': 'fromhdr', 'cls': src, 'dst': dst, 'e': e, 'hex': bs.hex(), 'check': check, 'stream': 'fromhdr'}
-    return Case(None, data, ("fromhdr", src, dst, e, check, _sha(bs)), 'fromhdr')
+    # cross-class conversions without the final check are compared field by field with the model
+    line = f'C10 fromhdr {src} {dst} {e} {bs.hex()}' if (src != dst and not check) else None
+    return Case(line, data, ("fromhdr", src, dst, e, check, _sha(bs)), 'fromhdr')
 
 
 def case_from_data(d):
@@ -587,7 +597,53 @@ def impl_fromhdr(case):
         case.extra = {'src': src, 'exc': ex, 'bb_src': bb_src}
         return 'ERR:HeaderDataError'
     case.extra = {'src': src, 'dst': dst, 'bb_src': bb_src}
-    return f'ok {type(dst).__name__} {dst.endianness}'
+    if case.line is None:
+        return f'ok {type(dst).__name__} {dst.endianness}'
+    return fromhdr_observable(S, D, src, dst)
+
+
+OVERWRITTEN = ('datatype', 'bitpix', 'dim', 'pixdim')
+
+
+def _native(a):
+    a = np.asarray(a)
+    return a.astype(a.dtype.newbyteorder('=')) if a.dtype.kind != 'S' else a
+
+
+def fromhdr_observable(S, D, src, dst):
+    """Where every field of the converted header comes from: c = NumPy cast of the same-named source field,
+    d = target default, o = written by the setters (then its value is printed), x = anything else."""
+    sd, dd = S.template_dtype, D.template_dtype
+    dflt = D()
+    over = set(OVERWRITTEN) | ({'magic'} if 'magic' in dd.names else set())
+    prov = []
+    for n in dd.names:
+        if n in over:
+            prov.append('o')
+            continue
+        got = _native(dst[n]).tobytes()
+        tag = 'x'
+        if n in sd.names:
+            try:
+                with np.errstate(all='ignore'):
+                    want = np.asarray(src[n]).astype(dd[n].base.newbyteorder('=') if dd[n].base.kind != 'S' else dd[n].base)
+                if want.shape == np.asarray(dst[n]).shape and want.tobytes() == got:
+                    tag = 'c'
+            except (ValueError, TypeError):
+                pass
+        if tag == 'x' and got == _native(dflt[n]).tobytes():
+            tag = 'd'
+        prov.append(tag)
+    ft = dd['pixdim'].base.newbyteorder('=')
+    with np.errstate(all='ignore'):
+        sp = np.asarray(src['pixdim']).astype(ft)
+    dp = _native(dst['pixdim'])
+    ut = ft.str.replace('f', 'u')
+    pix = ''.join('c' if sp.view(ut)[i] == dp.view(ut)[i] else ('1' if dp[i] == 1 else 'x') for i in range(8))
+    magic = (np.asarray(dst['magic']).tobytes().rstrip(b'\x00').hex() or '-') if 'magic' in dd.names else '-'
+    dim = ','.join(str(int(x)) for x in np.asarray(dst['dim']))
+    return (f'dt={int(dst["datatype"])}/{int(dst["bitpix"])} dim=[{dim}] pix={pix} magic={magic} '
+            f'prov={"".join(prov)}')
 
 
 # ------------------------------------------------------------------ building headers through the public setters
@@ -1174,6 +1230,8 @@ def oracle_fromhdr(case, out):
     Ks = classes()
     S, D = Ks[d['cls']], Ks[d['dst']]
     ex = case.extra
+    if ex is None:
+        return f'from_header({d["cls"]}->{d["dst"]}, check={d["check"]}) raised {out}'
     src = ex['src']
     if src.binaryblock != ex['bb_src']:
         return f'from_header({d["cls"]}->{d["dst"]}) modified the source header'
